@@ -70,6 +70,37 @@ class CleanSem(Sem):
         self.heads[st] = (head, back_states)
 
 
+def _registrations(m, call):
+    """[(registration statement, registering coroutine node, {name in call(): name inside the coroutine})] for every store into the
+    pending table made by call() itself, a closure of it, or a NetworkClient coroutine method that call() invokes"""
+    out = []
+    for f in m.funcs.values():
+        if f.cls != call.cls:
+            continue
+        for n in walk_local(f.node):
+            if isinstance(n, ast.Assign) and any(isinstance(t, ast.Subscript) and dotted(t.value) == TABLE for t in n.targets):
+                top = f
+                while top.parent is not None:
+                    top = top.parent
+                if top is call:
+                    names = {x.id for x in ast.walk(call.node) if isinstance(x, ast.Name)}
+                    out.append((n, f.node, {k: k for k in names}))
+                elif f.parent is None:
+                    # a method: how does call() invoke it?
+                    for c in calls_in(call.node):
+                        if isinstance(c.func, ast.Attribute) and c.func.attr == f.name and dotted(c.func.value) == "self":
+                            params = [p for p in f.params() if p != "self"]
+                            idmap = {}
+                            for p_, a_ in zip(params, c.args):
+                                if isinstance(a_, ast.Name):
+                                    idmap[a_.id] = p_
+                            for k in c.keywords:
+                                if isinstance(k.value, ast.Name) and k.arg:
+                                    idmap[k.value.id] = k.arg
+                            out.append((n, f.node, idmap))
+    return out
+
+
 class _SetSem(Sem):
     """state: the event has been set on every path reaching here"""
     base_exc_escapes = False
@@ -312,22 +343,22 @@ def check(ctx):
     ctx.ob("C14-R5", call.fq, "the message id is drawn by uuid.uuid4() in this activation (one site)", len(ids) == 1, node=call.node, construct="fresh id per call")
     if len(ids) == 1:
         idn = ids[0].targets[0].id
-        regs = [n for n in ast.walk(call.node) if isinstance(n, ast.Assign) and any(isinstance(t, ast.Subscript) and dotted(t.value) == TABLE for t in n.targets)]
+        regs = _registrations(m, call)
         ctx.ob("C14-R5", call.fq, "exactly one registration in the pending table", len(regs) == 1, node=call.node, construct="one registration per call")
-        for r in regs:
+        for r, co, idmap in regs:
+            # idmap: name under which this call's id is known inside the registering coroutine (the id variable itself for a
+            # closure of call(); the parameter it is passed as when the coroutine is a method)
+            idc = idmap.get(idn)
             t = r.targets[0]
-            ok = isinstance(t.slice, ast.Name) and t.slice.id == idn and isinstance(r.value, ast.Name)
+            ok = isinstance(t.slice, ast.Name) and idc is not None and t.slice.id == idc and isinstance(r.value, ast.Name)
             ctx.ob("C14-R5", call.fq, "the registration key is the id drawn for this call and the value is a future variable", ok, node=r, construct="registration keyed by this call's id")
             fut = r.value.id if isinstance(r.value, ast.Name) else None
-            fdef = [n for n in ast.walk(call.node) if isinstance(n, ast.Assign) and any(isinstance(x, ast.Name) and x.id == fut for x in n.targets)]
+            fdef = [n for n in ast.walk(co) if isinstance(n, ast.Assign) and any(isinstance(x, ast.Name) and x.id == fut for x in n.targets)]
             ok = len(fdef) == 1 and isinstance(fdef[0].value, ast.Call) and callee_name(fdef[0].value) in ("create_future", "Future")
             ctx.ob("C14-R5", call.fq, "the registered future is created for this call", ok, node=r, construct="future created per call")
             # the coroutine that registers: sends with the same id, awaits the same future, registration before the first await
-            co = r
-            while co is not None and not isinstance(co, FUNC):
-                co = co._parent
             snd = [c for c in ast.walk(co) if isinstance(c, ast.Call) and callee_name(c) == "stream_send_msg"]
-            ok = len(snd) == 1 and len(snd[0].args) >= 2 and isinstance(snd[0].args[1], ast.Name) and snd[0].args[1].id == idn
+            ok = len(snd) == 1 and len(snd[0].args) >= 2 and isinstance(snd[0].args[1], ast.Name) and snd[0].args[1].id == idc
             ctx.ob("C14-R5", call.fq, "the frame is sent under the same id", ok, node=r, construct="send uses this call's id")
             aws = [n for n in walk_local(co) if isinstance(n, ast.Await)]
             first_await = min(((a.lineno, a.col_offset) for a in aws), default=(10**9, 0))
@@ -345,7 +376,17 @@ def check(ctx):
         ok = bool(rct) and all(any(pol and isinstance(e, ast.Call) and isinstance(e.func, ast.Attribute) and e.func.attr == "is_open" and dotted(e.func.value) == "self"
                                    for e, pol in atoms_at(c, call.node)) for c in rct)
         ctx.ob("C14-R5", call.fq, "a call on a connection that is not open raises before anything is registered or sent", ok, node=rct[0] if rct else call.node, construct="is_open guard raises first")
-        ok = len(rct) == 1 and isinstance(rct[0]._parent, ast.Attribute) and rct[0]._parent.attr == "result" and len(rct[0].args) == 2 and dotted(rct[0].args[1]) == "self.ioloop"
+        # the concurrent future it returns is waited on with .result(), directly or through one local, and that value is returned
+        def _waited(c):
+            p = getattr(c, "_parent", None)
+            if isinstance(p, ast.Attribute) and p.attr == "result":
+                return True
+            if isinstance(p, ast.Assign) and len(p.targets) == 1 and isinstance(p.targets[0], ast.Name):
+                nm = p.targets[0].id
+                return any(isinstance(x, ast.Call) and isinstance(x.func, ast.Attribute) and x.func.attr == "result" and isinstance(x.func.value, ast.Name) and x.func.value.id == nm
+                           for x in ast.walk(call.node))
+            return False
+        ok = len(rct) == 1 and _waited(rct[0]) and len(rct[0].args) == 2 and dotted(rct[0].args[1]) == "self.ioloop"
         ctx.ob("C14-R5", call.fq, "the coroutine is run on the io loop and its result (or exception) is returned to the caller", ok, node=call.node, construct="run_coroutine_threadsafe(...).result()")
 
 
@@ -362,10 +403,7 @@ def check(ctx):
 
     # ---- R10 gate
     gate = None
-    for r in [n for n in ast.walk(call.node) if isinstance(n, ast.Assign) and any(isinstance(t, ast.Subscript) and dotted(t.value) == TABLE for t in n.targets)]:
-        co = r
-        while co is not None and not isinstance(co, FUNC):
-            co = co._parent
+    for r, co, _idmap in _registrations(m, call):
         for c in [c for c in ast.walk(co) if isinstance(c, ast.Call) and callee_name(c) == "stream_send_msg"]:
             ctx.instance("C14-R10", call.fq, "send stream")
             a0 = c.args[0] if c.args else None
